@@ -182,18 +182,20 @@ def make_schema(src, default, recursion, dep=1):
         return subclass_schema()
     if src == 1:
         return code_schema()
-    return build_schema(S.render(S.base_record(dict(desc=True, dep=dep, default=default, recursion=recursion, present=0x3F))))
+    # dep: 0 nothing deprecated, 1 some members, 2 every member of some types, 3 some members deprecated with the EMPTY reason
+    text = len(S.TEXT_SUFFIXES) - 1 if dep == 3 else 0
+    return build_schema(S.render(S.base_record(dict(desc=True, dep=(True if dep == 3 else dep), default=default, recursion=recursion, present=0x3F, text=text))))
 
 
 def _introspect(src: int, default: int, recursion: int, cfg: int, dep: int = 1) -> bool:
     """
-    pre: 0 <= src <= 2 and 0 <= default < len(S.DEFAULT_KINDS) and 0 <= recursion <= 3 and 0 <= cfg <= 1 and 0 <= dep <= 2
+    pre: 0 <= src <= 2 and 0 <= default < len(S.DEFAULT_KINDS) and 0 <= recursion <= 3 and 0 <= cfg <= 1 and 0 <= dep <= 3
     pre: dep == 1 or default == 0 or thorough()
     pre: shard_of(default)
     post: _
     """
     SRC, D, R, C = concrete_int(src, 0, 2), concrete_int(default, 0, len(S.DEFAULT_KINDS) - 1), concrete_int(recursion, 0, 3), concrete_int(cfg, 0, 1)
-    DEP = concrete_int(dep, 0, 2)
+    DEP = concrete_int(dep, 0, 3)
     if SRC >= 1 and (D or R or DEP != 1):
         return result(True, False)
     with untraced():
@@ -214,10 +216,11 @@ INCLUDES = (("", None), ("(includeDeprecated: false)", None), ("(includeDeprecat
 
 def _deprecated_filter(src: int, include: int, dep: int, via_type: bool) -> bool:
     """
-    pre: 0 <= src <= 2 and 0 <= include < len(INCLUDES) and 0 <= dep <= 2
+    pre: 0 <= src <= 2 and 0 <= include < len(INCLUDES) and 0 <= dep <= 3
+    pre: shard_of(dep)
     post: _
     """
-    SRC, INC, DEP = concrete_int(src, 0, 2), concrete_int(include, 0, len(INCLUDES) - 1), concrete_int(dep, 0, 2)
+    SRC, INC, DEP = concrete_int(src, 0, 2), concrete_int(include, 0, len(INCLUDES) - 1), concrete_int(dep, 0, 3)
     VT = True if via_type else False
     with untraced():
         schema = make_schema(SRC, 0, 0, DEP)
@@ -327,7 +330,7 @@ CONDITIONS = [
         symbolic={"src,default,recursion,cfg": "choice"}, witness={"src": 0, "default": 1, "recursion": 0, "cfg": 0, "dep": 1},
         assumptions=["oracle: introspection content per spec 4.5 computed from public schema attributes (expected_types)"],
     ),
-    Cond(name="deprecated_filter", fn=_deprecated_filter, quick=60, thorough=60, bound="includeDeprecated absent / false / true / through a variable (false, true, omitted) on fields and enumValues x deprecation pattern (none, some, EVERY member of an object type, an interface and an enum) "
+    Cond(name="deprecated_filter", fn=_deprecated_filter, quick=60, thorough=60, shards_quick=4, shards_thorough=4, bound="includeDeprecated absent / false / true / through a variable (false, true, omitted) on fields and enumValues x deprecation pattern (none, some, EVERY member of an object type, an interface and an enum, some members with the EMPTY reason) "
                "x via __schema.types or __type(name:) for every type, 2 schemas: member lists (name, isDeprecated, deprecationReason) equal the reference, null only for kinds without such members",
          symbolic={"src,include,dep,via_type": "choice"}, witness={"src": 0, "include": 1, "dep": 2, "via_type": False}),
     Cond(name="disabled", fn=_disabled, quick=60, thorough=60, bound="disable_introspection on/off x 8 queries (ordinary fields whose names start or end with an underscore, __schema, __type, __typename at the root, none, __typename through an inline fragment, meta-fields through a named fragment, "
